@@ -80,6 +80,7 @@ SAT_BY_TYPE = {
     "cumulative": ["Additive_Cardinal_Sat"],
     "ordinal": ["Additive_Borda_Sat"],
 }
+INSTANCE_DEPENDENT = ["Relative_Cardinality_Sat", "Relative_Cost_Approx_Normaliser_Sat"]
 MEAS_ID = {"Cardinality_Sat": 1, "Cost_Sat": 2, "CC_Sat": 3}
 FLOAT_MEAS = {"Cost_Sqrt_Sat"}
 
@@ -230,9 +231,17 @@ def gen(rng, i, tier):
                 seen.append(a)
         allocs = seen
     measures = SAT_BY_TYPE[btype]
+    # how the profile object is tied to an instance: bound to the instance that is passed to the functions, built without
+    # instance= (profile.instance is then an empty Instance() with budget 0), bound to another Instance object of equal
+    # content, or bound to an Instance with other costs and another budget.  The definitions refer to the PASSED instance.
+    bind = rng.choice(["same", "same", "unbound", "equal", "other", "other"])
+    bind_budget = pb.qs(rng.choice([Fraction(0), b / 3, 2 * b + 1]))
     satq = []
     for a in allocs:
-        for m in (measures if tier == "thorough" else rng.sample(measures, min(len(measures), 2))):
+        ms = list(measures) if tier == "thorough" else rng.sample(measures, min(len(measures), 2))
+        if btype == "approval" and bind in ("unbound", "other") and tier != "thorough":
+            ms[0] = rng.choice(INSTANCE_DEPENDENT)      # measures that read instance.budget_limit
+        for m in ms:
             hist = []
             # (no histogram on costs beyond 2**53: the code's own int*int/int is a float division there)
             for _ in range(0 if big else 2 if tier == "quick" else 4):
@@ -274,7 +283,7 @@ def gen(rng, i, tier):
         giniq.append(gv)
     return {"btype": btype, "costs": [pb.qs(c) for c in costs], "budget": pb.qs(b), "order": order,
             "ballots": ballots, "multi": multi, "ask": ask, "satq": satq, "cats": cats,
-            "meanq": meanq, "giniq": giniq, "big": big,
+            "meanq": meanq, "giniq": giniq, "big": big, "bind": bind, "bind_budget": bind_budget,
             # numeric type of costs/budget and of the arguments of the direct helper calls: the library's own
             # (int when integral, else mpq) or fractions.Fraction
             "ctype": rng.choice(["auto", "auto", "fraction"]), "numtype": rng.choice(["auto", "fraction"])}
@@ -350,7 +359,19 @@ def impl(case):
         inst.categories = set(names)
         for p, cs in zip(projs, cats["pcats"]):
             p.categories = {names[k] for k in cs}
-    listprof = pb.make_profile(btype, inst, projs, case["ballots"], False)
+    from pabutools.election import Instance, Project
+    bind = case.get("bind", "same")
+    refprof = pb.make_profile(btype, inst, projs, case["ballots"], False)   # reference: bound to the passed instance
+    if bind == "same":
+        listprof = refprof
+    else:
+        if bind == "unbound":
+            bound = None
+        elif bind == "equal":
+            bound = Instance(projs, budget_limit=inst.budget_limit)
+        else:
+            bound = Instance([Project(p.name, p.cost + 1) for p in projs], budget_limit=pb.num(case["bind_budget"]))
+        listprof = pb.make_profile(btype, bound, projs, case["ballots"], False)
     prof = listprof.as_multiprofile() if case["multi"] else listprof
     out = {}
     if case["multi"]:
@@ -394,14 +415,21 @@ def impl(case):
     for sqc in case["satq"]:
         cls = Table_Sat if sqc["meas"] == "Table_Sat" else getattr(satmod, sqc["meas"])
         alloc = [projs[j] for j in sqc["alloc"]]
-        voters = [cls(inst, listprof, b).sat(alloc) for b in listprof]
+        voters = [cls(inst, refprof, b).sat(alloc) for b in refprof]          # the definition: the PASSED instance
         classes = [cls(inst, prof, b).sat(alloc) for b in class_ballots]
         r = {"voters": [core.qj(v) for v in voters], "classes": [core.qj(v) for v in classes]}
         r["avg"] = core.qj(an.avg_satisfaction(inst, prof, alloc, cls))
         if sqc["meas"] == "CC_Sat":
             r["neh"] = core.qj(an.percent_non_empty_handed(inst, prof, alloc))
         if nv:
-            r["pos"] = core.qj(percent_positive_satisfaction(prof, alloc, cls))
+            # percent_positive_satisfaction takes no instance: it refers to the instance the profile is bound to
+            pv = percent_positive_satisfaction(prof, alloc, cls)
+            if bind == "same":
+                r["pos"] = core.qj(pv)
+            else:
+                r["pos2"] = {"pos": core.qj(pv),
+                             "voters": [core.qj(cls(prof.instance, listprof, b).sat(alloc)) for b in listprof],
+                             "classes": [core.qj(cls(prof.instance, prof, b).sat(alloc)) for b in class_ballots]}
         r["gini"] = core.qj(an.gini_coefficient_of_satisfaction(inst, prof, alloc, cls))
         r["gini_inv"] = core.qj(an.gini_coefficient_of_satisfaction(inst, prof, alloc, cls, invert=True))
         hs = []
@@ -479,6 +507,10 @@ def coq_case(case, o):
             natl(sqc["alloc"]), core.nat(MEAS_ID.get(sqc["meas"], 0)), boolc(sqc["meas"] not in FLOAT_MEAS),
             core.qlist(r["voters"]), core.qlist(r["classes"]), _oq(r.get("avg")), _oq(r.get("neh")),
             _oq(r.get("pos")), _oq(r.get("gini")), _oq(r.get("gini_inv")), hist))
+        if r.get("pos2"):
+            p2 = r["pos2"]
+            sqs.append("(mkSatq %s 0%%nat true %s %s None None %s None None [])" % (
+                natl(sqc["alloc"]), core.qlist(p2["voters"]), core.qlist(p2["classes"]), _oq(p2["pos"])))
     cats = case.get("cats")
     if cats:
         pcats = lst([natl(cs) for cs in cats["pcats"]])
@@ -516,6 +548,8 @@ def stats(cases, obs):
          "mean_generator_calls": 0, "gini_calls": 0, "gini_value_error": 0, "costs_beyond_2_53": 0}
     d["max_satisfaction_type"] = {}
     d["cost_type"] = {}
+    d["profile_binding"] = {}
+    d["instance_dependent_measure_on_foreign_binding"] = 0
     d["helper_arg_type"] = {}
     full = {}
     for c, o in zip(cases, obs):
@@ -523,6 +557,10 @@ def stats(cases, obs):
             continue
         d["cost_type"][c.get("ctype", "auto")] = d["cost_type"].get(c.get("ctype", "auto"), 0) + 1
         d["helper_arg_type"][c.get("numtype", "auto")] = d["helper_arg_type"].get(c.get("numtype", "auto"), 0) + 1
+        bd = c.get("bind", "same")
+        d["profile_binding"][bd] = d["profile_binding"].get(bd, 0) + 1
+        d["instance_dependent_measure_on_foreign_binding"] += sum(
+            1 for sq in c["satq"] if sq["meas"] in INSTANCE_DEPENDENT and bd in ("unbound", "other"))
         d["btype"][c["btype"]] = d["btype"].get(c["btype"], 0) + 1
         d["multiprofile"] += bool(c["multi"])
         d["costs_beyond_2_53"] += bool(c.get("big"))
